@@ -178,11 +178,15 @@ def checkNext (ds : List Denom) (m : Mon) (pre post : State) : Mon × List Fail 
       (if feeSum < priceSum then [{ clause := "charge-eq-fees", cls := "F-svc-1" : Fail }] else []) ++
       (if 0 < f4 then [{ clause := "charge-eq-fees", cls := "F-svc-4" : Fail }] else [])
     else [{ clause := "charge-eq-fees" }]
-  -- (F-svc-1 bookkeeping) the surplus of this block stays in the escrow
+  -- (F-svc-1 bookkeeping) what this block really left in the escrow beyond the fees of the requests it created
+  -- (and minus the refunds of those it expired); it is attributed to F-svc-1 only if it is exactly
+  -- Σ (undiscounted price − recorded fee) of the created requests
   let surplus : AMap Denom Nat := ds.foldl (fun acc d =>
     let fee := sumList (created.map (fun r => reqFee post r d))
     let price := sumList (created.map (fun r => priceIn pre post r d))
-    if fee < price then AMap.set acc d (AMap.getD acc d 0 + (price - fee)) else acc) m.stranded
+    let refund := sumList (expired.map (fun r => reqFee pre r d))
+    let actual : Int := (bal post reqAcc d - bal pre reqAcc d) - (fee : Int) + (refund : Int)
+    if fee < price ∧ actual = ((price - fee : Nat) : Int) then AMap.set acc d (AMap.getD acc d 0 + (price - fee)) else acc) m.stranded
   -- (expiry) exactly the requests whose expiration height is this block leave the active set
   let expiryFails :=
     (if pre.active.all (fun r => (post.active.contains r) == !(((AMap.get? pre.reqs r).map (·.expH)) == some pre.height))
